@@ -150,7 +150,7 @@ def audit(modules):
     if ends != len(modules):
         raise MachineryError("audit incomplete")
     # compiler-generated equation/induction lemmas of definitions are not obligations
-    gen = re.compile(r"\.(eq_def|eq_\d+|induct|induct_unfolding|fun_cases|fun_cases_unfolding|match_\d+.*|proof_\d+|sizeOf_spec|injEq|inj|noConfusion.*)$")
+    gen = re.compile(r"\.(eq_def|eq_\d+|induct|induct_unfolding|fun_cases|fun_cases_unfolding|congr_simp|match_\d+.*|proof_\d+|sizeOf_spec|injEq|inj|noConfusion.*)$")
     thms = {n: a for n, a in thms.items() if not gen.search(n)}
     bad = [n for n, axs in thms.items() if not set(axs) <= ALLOWED_AXIOMS]
     return thms, bad
